@@ -4,6 +4,7 @@ The decoder chain is universally quantified: the theorems hold for every codec, 
 packed stream and every header-declared size.
 -/
 import SevenZ.Lemmas.Decode
+import SevenZ.Lemmas.ParseBound
 namespace SevenZ.C05
 open SevenZ SevenZ.Impl
 
@@ -33,5 +34,66 @@ theorem chunk_le_request {σ} (ch : Chain σ) (cfg : DecCfg) (st : DecState σ) 
 /- non-vacuity: a guarded run on a concrete stalled stream ends in `stalled`, not out of fuel -/
 example : (match workerLoop emptyChain { inputSize := 10, blockSize := 4 } 100 (some 8) 50
     { chain := (), src := [1, 2, 3] } 5 0 [] with | .stalled _ => true | _ => false) = true := by decide
+
+/-- **The header parser builds nothing that is not paid for in header bytes.** For EVERY byte string `buf` handed to
+    `Header._read` (well-formed or not, any counts, any CRC-sealed mutation): if the parse succeeds, the member list
+    has at most eight entries per header byte, the folder list and the pack-size list at most one, and the declared
+    sub-stream counts add up to at most eight per header byte — the two `header_size * 8` guards in
+    `FilesInfo._read` / `SubstreamsInfo._read` and the fact that every loop round of the other productions consumes a
+    byte. (A 60-byte header cannot make the parser allocate 2^31 list entries; the count-bomb defects dea92af and F4
+    were exactly the absence of this.) -/
+theorem parsed_header_bounded (buf : Bytes) (H : Header) (h : Impl.readNextHeader buf = .ok (.raw H)) :
+    (∀ fi, H.filesInfo = some fi → fi.files.length ≤ buf.length * 8) ∧
+    (∀ st, H.mainStreams = some st →
+      (∀ p, st.packinfo = some p → p.packsizes.length ≤ buf.length) ∧
+      (∀ fs, st.folders = some fs → fs.length ≤ buf.length) ∧
+      (∀ ss, st.substreams = some ss → ss.numUnpack.sum ≤ buf.length * 8 ∧ ss.numUnpack.length ≤ buf.length)) := by
+  unfold Impl.readNextHeader at h
+  split at h
+  · simp at h
+  · rename_i rest
+    simp only [List.length_cons] at h ⊢
+    cases hr : Impl.readHeaderBody (rest.length + 1) rest with
+    | error e => simp [hr, Except.map] at h
+    | ok v =>
+      obtain ⟨H', s'⟩ := v
+      simp only [hr, Except.map, Except.ok.injEq, Impl.NextHeader.raw.injEq] at h
+      subst h
+      exact readHeaderBody_post hr (by omega)
+  · rename_i rest
+    simp only [List.length_cons] at h ⊢
+    cases hr : Impl.readStreams (rest.length + 1) rest with
+    | error e => simp [hr, Except.map] at h
+    | ok v => simp [hr, Except.map] at h
+  · simp at h
+
+/-- the same for an EncodedHeader record (the streams of the packed header) -/
+theorem parsed_encoded_bounded (buf : Bytes) (st : Streams) (h : Impl.readNextHeader buf = .ok (.encoded st)) :
+    (∀ p, st.packinfo = some p → p.packsizes.length ≤ buf.length) ∧
+    (∀ fs, st.folders = some fs → fs.length ≤ buf.length) ∧
+    (∀ ss, st.substreams = some ss → ss.numUnpack.sum ≤ buf.length * 8 ∧ ss.numUnpack.length ≤ buf.length) := by
+  unfold Impl.readNextHeader at h
+  split at h
+  · simp at h
+  · rename_i rest
+    simp only [List.length_cons] at h ⊢
+    cases hr : Impl.readHeaderBody (rest.length + 1) rest with
+    | error e => simp [hr, Except.map] at h
+    | ok v => simp [hr, Except.map] at h
+  · rename_i rest
+    simp only [List.length_cons] at h ⊢
+    cases hr : Impl.readStreams (rest.length + 1) rest with
+    | error e => simp [hr, Except.map] at h
+    | ok v =>
+      obtain ⟨st', s'⟩ := v
+      simp only [hr, Except.map, Except.ok.injEq, Impl.NextHeader.encoded.injEq] at h
+      subst h
+      have post := readStreams_post hr (by omega)
+      exact ⟨post.1, post.2.1, post.2.2.1⟩
+  · simp at h
+
+-- non-vacuity: a header that parses, and a 12-byte header that declares 2^31 members and is refused
+example : (Impl.readNextHeader [0x01, 0x05, 0x01, 0x00, 0x00]).isOk = true ∧
+    (Impl.readNextHeader [0x01, 0x05, 0xF0, 0x00, 0x00, 0x00, 0x80, 0x00, 0x00]).isOk = false := by decide +kernel
 
 end SevenZ.C05
